@@ -1475,13 +1475,13 @@ META = {
         "listed with the doc sentence it rests on in contracts.c02_eval.DOC_DECISIONS, every generator restriction in GENERATOR_RESTRICTIONS",
         "an expression hole of an emission schema is filled with text that is ONE Python operand: holds by construction for every visitor "
         "that opens with a parenthesis / call (checked by the schemas), checked on sample constants for visit_Const "
-        "(C02.emit.Const.operand, bounded; refuted for negative numbers on the unchanged tree: known finding)",
+        "(C02.emit.Const.operand, bounded; it was refuted for negative numbers before /repo commit 78bbe8f)",
         "non-finite float constants (inf / nan written as bare names) are C08.const.roundtrip / C01.emit.wellformed.W5 (F9)",
     ],
     "findings": [
-        "negative constant as left operand of ** (visit_Const writes `-3`): C02.emit.Const.operand, C02.bounded.negconst_pow",
-        "keyword if / in / not after an argument-less test is parsed as the test's argument: C02.parser.precedence.parse_test, C02.bounded.test_then_keyword",
-        "And/Or/CondExpr/Concat.as_const let UndefinedError out at compile time under StrictUndefined (untaken branch): C02.bounded.strict_fold_untaken",
+        "all repaired in /repo (known_findings.d/c02.json, list `fixed`): negative constant as left operand of ** (78bbe8f), keyword if / in / not "
+        "after an argument-less test taken as its argument (a97bf40), And/Or/CondExpr/Concat.as_const raising at compile time under "
+        "StrictUndefined (53bedfb); the obligations that found them are kept and now discharge",
     ],
     "trusted_base": ["pyvc symbolic executor and emission engine", "z3 / cvc5", "contracts.c01_parser abstract token stream model (shared with C01)",
                      "CPython ast module (parsing emitted text)"],
